@@ -25,9 +25,13 @@ None == [op |-> "none"]
 
 \* the atomic effect and result of an operation o on the logger
 Effect(o) ==
-  CASE o.op = "write"     -> [st |-> Append(st, [id |-> o.id, n |-> 0, tb |-> o.tb]),
+  CASE o.op = "write"     -> [st |-> Append(st, [id |-> o.id, n |-> 0, tb |-> o.tb, bad |-> o.bad]),
                               tbs |-> IF o.tb # 0 THEN Append(tbs, o.id) ELSE tbs, r |-> <<>>]
-    [] o.op = "validate"  -> [st |-> [i \in DOMAIN st |-> [st[i] EXCEPT !.n = @ + 1]], tbs |-> tbs, r |-> <<>>]
+    [] o.op = "validate"  -> \* stops at the first message that does not validate (raising); the earlier ones were serialized in place
+                             LET firstbad == IF \E i \in DOMAIN st : st[i].bad THEN CHOOSE i \in DOMAIN st : st[i].bad /\ \A j \in 1..(i - 1) : ~st[j].bad
+                                             ELSE Len(st) + 1
+                             IN [st |-> [i \in DOMAIN st |-> IF i < firstbad THEN [st[i] EXCEPT !.n = @ + 1] ELSE st[i]], tbs |-> tbs,
+                                 r |-> IF firstbad <= Len(st) THEN <<<<"raised", "ValidationError">>>> ELSE <<>>]
     [] o.op = "serialize" -> [st |-> st, tbs |-> tbs, r |-> [i \in DOMAIN st |-> <<st[i].id, st[i].n + 1>>]]
     [] o.op = "flush"     -> LET cls(i) == (CHOOSE j \in DOMAIN st : st[j].id = i)
                                  hit(i) == \E j \in DOMAIN st : st[j].id = i /\ st[j].tb \in o.classes
@@ -36,7 +40,7 @@ Effect(o) ==
 
 Init == /\ tid \in DOMAIN Traces /\ l = 1 /\ st = <<>> /\ tbs = <<>> /\ pend = [t \in Threads |-> None]
 Inv == /\ l <= N /\ Ev.e = "inv" /\ pend[Ev.t].op = "none"
-       /\ pend' = [pend EXCEPT ![Ev.t] = [op |-> Ev.op, id |-> Ev.id, tb |-> Ev.tb, classes |-> {Ev.classes[i] : i \in DOMAIN Ev.classes},
+       /\ pend' = [pend EXCEPT ![Ev.t] = [op |-> Ev.op, id |-> Ev.id, tb |-> Ev.tb, bad |-> Ev.bad, classes |-> {Ev.classes[i] : i \in DOMAIN Ev.classes},
                                          lin |-> FALSE, r |-> <<>>]]
        /\ l' = l + 1 /\ UNCHANGED <<tid, st, tbs>>
 \* the silent linearization point of a pending call
